@@ -31,6 +31,14 @@
 (*   NaNStep   NaN iterate: all comparisons false, Newton branch, NaN      *)
 (*   Stop      loop exit: converged or i = max_iters; result NaN unless    *)
 (*             converged                                                   *)
+(* Named deviation (fix 604fb4f, finding F36): the code also sets          *)
+(* converged when the maintained bracket's ends are NEIGHBOURING FLOATS    *)
+(* (nextafter(xl, xh) = xh).  The lattice's spacing h is many ulps, so     *)
+(* that exit cannot fire on any behaviour replayed from this module and    *)
+(* is not an action here; it is exercised and judged by the contract       *)
+(* clauses on the directed genuine families large_root / zero_tol of       *)
+(* checks/c17.py (x_tol below the float spacing at the root), where the    *)
+(* unrepaired code returned NaN.                                           *)
 (***************************************************************************)
 EXTENDS RootContract
 
